@@ -20,7 +20,8 @@ RULE = ('Block1014 is driven with position-coded data. Enumerated: every interna
         'trailers, payloads = data then 0x40 fill, at most one all-fill block; equals block_1014 output up to one '
         'all-fill block. Non-trivial = data reaches or crosses a block edge; distinct by (state, path, length) or history digest.')
 ASSUMPTIONS = ['the blocker is finalised exactly once at the end of a history (finalise, seek(0) or close)',
-               'one-shot block_1014 is compared on the same data; an optional trailing all-fill block is allowed on either side']
+               'one-shot block_1014 is compared on the same data; an optional trailing all-fill block is allowed on either side',
+               'write is handed bytes, bytearray and memoryview objects: the blocker stands in for a binary file, whose write takes any bytes-like object, and the unchanged code accepts all three']
 
 TOTAL = 1012 * 6 + 50
 POS = b''.join(i.to_bytes(3, 'big') for i in range(1, TOTAL // 3 + 2))[:TOTAL]
@@ -44,13 +45,18 @@ def paths_to_state(s):
     return [[1012 - s], [1012, 1012 - s]]
 
 
-def run_history(chunks, finaliser='finalise', check_prefix=False):
-    """returns (file_bytes, total, problem)"""
+DATA_KINDS = {'bytes': bytes, 'bytearray': bytearray, 'memoryview': memoryview}
+
+
+def run_history(chunks, finaliser='finalise', check_prefix=False, kind='bytes'):
+    """returns (file_bytes, total, problem); `kind`: the bytes-like type handed to write (the blocker stands in for a
+    binary file, whose write takes any bytes-like object - and the unchanged code does)"""
     f = KeepIO()
     b = mciipm.Block1014(f)
     off = 0
+    wrap = DATA_KINDS[kind]
     for n in chunks:
-        b.write(POS[off:off + n])
+        b.write(wrap(POS[off:off + n]))
         off += n
         if check_prefix:
             cur = f.getvalue()
@@ -101,11 +107,11 @@ def oneshot(total):
     return o.getvalue()
 
 
-def check_case(chunks, finaliser='finalise', check_prefix=False):
+def check_case(chunks, finaliser='finalise', check_prefix=False, kind='bytes'):
     try:
-        out, total, prob = run_history(chunks, finaliser, check_prefix)
+        out, total, prob = run_history(chunks, finaliser, check_prefix, kind)
     except Exception as ex:
-        return exc_sig('raises', ex), f'writes {chunks} then {finaliser} raised {ex!r}'
+        return exc_sig('raises', ex), f'writes {chunks} ({kind} objects) then {finaliser} raised {ex!r}'
     if prob:
         return prob
     why = judge(out, total)
@@ -148,9 +154,10 @@ def sweep(ctx, states, full):
                 n += 1
                 if base + ln >= 1012:
                     nt += 1
-                res = check_case(path + [ln])
+                kind = ('bytes', 'bytes', 'bytearray', 'memoryview')[(s + ln) % 4]
+                res = check_case(path + [ln], kind=kind)
                 if res:
-                    ctx.report(res[0], {'chunks': path + [ln], 'finaliser': 'finalise'}, res[1])
+                    ctx.report(res[0], {'chunks': path + [ln], 'finaliser': 'finalise', 'kind': kind}, res[1])
     ctx.bulk(n, nontrivial_distinct=nt, label='state-x-length')
     ctx.enumerated('all 1013 blocker states x 2 reaching paths x ' + ('every next write length 0..3036' if full else 'boundary next write lengths'))
     if 500 in states:
@@ -211,7 +218,8 @@ OP = st.one_of(
     st.tuples(st.just('abs'), st.sampled_from([0, 0, 1, 2, 4, 1011, 1012, 1013, 2024, 2025])),
     st.tuples(st.just('abs'), uniform(0, 3100)),
 )
-HISTORY = st.tuples(st.lists(OP, min_size=1, max_size=14), st.sampled_from(['finalise', 'seek', 'close']))
+HISTORY = st.tuples(st.lists(OP, min_size=1, max_size=14), st.sampled_from(['finalise', 'seek', 'close']),
+                    st.sampled_from(['bytes', 'bytes', 'bytearray', 'memoryview']))
 
 
 def resolve(ops):
@@ -232,18 +240,18 @@ def resolve(ops):
 
 def hyp_histories(ctx, n):
     def body(v):
-        ops, fin = v
+        ops, fin, kind = v
         chunks = resolve(ops)
         total = sum(chunks)
         edge = any(sum(chunks[:i + 1]) % 1012 == 0 and sum(chunks[:i + 1]) > 0 for i in range(len(chunks)))
-        ctx.case(key=harness.digest((chunks, fin)), nontrivial=total >= 1012,
-                 labels=['history', 'fin:' + fin, 'lands-on-edge' if edge else 'no-exact-edge',
+        ctx.case(key=harness.digest((chunks, fin, kind)), nontrivial=total >= 1012,
+                 labels=['history', 'fin:' + fin, 'data:' + kind, 'lands-on-edge' if edge else 'no-exact-edge',
                          'has-empty-write' if 0 in chunks else 'no-empty-write'])
         if len(ctx.samples) < 4 and total >= 1012:
             ctx.sample({'chunks': chunks, 'finaliser': fin})
-        res = check_case(chunks, fin, check_prefix=True)
+        res = check_case(chunks, fin, check_prefix=True, kind=kind)
         if res:
-            ctx.fail(res[0], {'chunks': chunks, 'finaliser': fin, 'prefix': True}, res[1])
+            ctx.fail(res[0], {'chunks': chunks, 'finaliser': fin, 'prefix': True, 'kind': kind}, res[1])
     harness.drive(ctx, HISTORY, body, n, salt='histories')
 
 
@@ -273,4 +281,4 @@ def replay(case):
         b.finalise()
         why = judge(f.getvalue(), total)
         return ('malformed-large:' + _cls(why), why) if why else None
-    return check_case(list(case['chunks']), case.get('finaliser', 'finalise'), check_prefix=case.get('prefix', False))
+    return check_case(list(case['chunks']), case.get('finaliser', 'finalise'), check_prefix=case.get('prefix', False), kind=case.get('kind', 'bytes'))
